@@ -15,6 +15,11 @@ pub mod c17;
 pub mod c18;
 pub mod common;
 #[cfg(not(pv_core))]
+#[cfg(not(pv_core))]
+pub mod c10;
+#[cfg(not(pv_core))]
+pub mod c11;
+#[cfg(not(pv_core))]
 pub mod c12;
 #[cfg(not(pv_core))]
 pub mod c13;
@@ -39,6 +44,10 @@ pub fn run(ctx: &mut Ctx) -> bool {
         "C16" => c16::run(ctx),
         "C17" => c17::run(ctx),
         "C18" => c18::run(ctx),
+        #[cfg(not(pv_core))]
+        "C10" => c10::run(ctx),
+        #[cfg(not(pv_core))]
+        "C11" => c11::run(ctx),
         #[cfg(not(pv_core))]
         "C12" => c12::run(ctx),
         #[cfg(not(pv_core))]
